@@ -105,3 +105,36 @@ pub proof fn lemma_not_after_suffix(a: Seq<PrefixFile>, b: Seq<PrefixFile>, t: S
         assert(a[i] == b[b.len() - a.len() + i]);
     }
 }
+
+// ---- start-up (region_startup): the crate's Error and the conversions `?` uses, the starting event (assumed / opaque)
+#[verifier::external_body]
+pub struct Error { _p: () }
+impl vstd::std_specs::convert::FromSpecImpl<String> for Error {
+    open spec fn obeys_from_spec() -> bool { false }
+    uninterp spec fn from_spec(s: String) -> Error;
+}
+impl From<String> for Error {
+    #[verifier::external_body]
+    fn from(s: String) -> Error { unimplemented!() }
+}
+impl vstd::std_specs::convert::FromSpecImpl<std::io::Error> for Error {
+    open spec fn obeys_from_spec() -> bool { false }
+    uninterp spec fn from_spec(e: std::io::Error) -> Error;
+}
+impl From<std::io::Error> for Error {
+    #[verifier::external_body]
+    fn from(e: std::io::Error) -> Error { unimplemented!() }
+}
+pub enum Level { Error, Info, Debug }
+#[verifier::external_body]
+pub struct Tag { _p: () }
+#[verifier::external_body]
+pub fn tag(name: &'static str, value: &'static str) -> Tag { unimplemented!() }
+// the line of the starting event (`Starting log writer`)
+pub uninterp spec fn start_line() -> Seq<u8>;
+impl LogEvent {
+    #[verifier::external_body]
+    pub fn new(level: Level, t: Tag) -> (r: LogEvent)
+        ensures r.line() == start_line()
+    { unimplemented!() }
+}
